@@ -427,6 +427,13 @@ pub fn rec_response(args: &Args) {
                     p.header.message_id = mid;
                     p.set_token(r.bytes(tkl));
                     ev_response(&mut out, &p, &mut r, &errs);
+                    // the same request with a header whose token-length nibble does not match the token (the
+                    // public header field replaced wholesale, as a forwarding node might)
+                    if mid % 3 == 0 {
+                        let mut q = p.clone();
+                        q.header.set_token_length(((tkl + 1 + (mid as usize % 7)) % 9) as u8);
+                        ev_response(&mut out, &q, &mut r, &errs);
+                    }
                 }
                 // native sweep of all message ids for this shape with anomaly forwarding:
                 // the relation is C07's own (reply id / token / type / version vs request)
